@@ -124,8 +124,10 @@ def strat(force_pb=False):
         pb_on = force_pb or draw(st.integers(0, 3)) == 0
         w = {}
 
-        def wspec(keys):
-            mode = draw(st.sampled_from(["scalar", "dict", "dict", "array"]))
+        def wspec(keys, allow_none=True):
+            mode = draw(st.sampled_from(["scalar", "dict", "dict", "array"] + (["none"] if allow_none else [])))
+            if mode == "none":
+                return None  # the term is configured but given no weight: it is not counted
             if mode == "scalar":
                 return draw(pos16())
             if mode == "array":
@@ -133,7 +135,7 @@ def strat(force_pb=False):
             # per-key dictionaries are written in an arbitrary key order (not necessarily the order of u_dict)
             return {k: draw(pos16()) for k in draw(st.permutations(list(keys)))}
 
-        w["dyn_loss"] = wspec(enames)
+        w["dyn_loss"] = wspec(enames, allow_none=False)
         # ---- per-unknown constraints
         def per_unknown(make):
             dct = {n: (make(n) if draw(st.booleans()) else None) for n in unames}
